@@ -6,7 +6,7 @@ import traceback
 
 from .model import Program, AnalysisError, Inconclusive
 from .resolve import Resolver
-from .norm import normalize_calls, normalize_membership, normalize_ifexp, normalize_next_genexp, normalize_counting_while
+from .norm import normalize_calls, normalize_membership, normalize_ifexp, normalize_next_genexp, normalize_counting_while, unroll_display_loops, normalize_suppress
 from .excflow import ExcFlow
 from .effects import Effects
 
@@ -48,12 +48,14 @@ class Ctx:
 
     def __init__(self, sources=None, tier="quick"):
         self.P = Program(sources) if sources is not None else Program.from_repo()
+        normalize_suppress(self.P)
         self.R = Resolver(self.P)
         self.calls_normalised = normalize_calls(self.P, self.R)
         normalize_membership(self.P)
         normalize_ifexp(self.P)
         normalize_next_genexp(self.P)
         normalize_counting_while(self.P)
+        unroll_display_loops(self.P)
         self._X = None
         self.E = Effects(self.P, self.R)
         self.tier = tier
@@ -150,6 +152,57 @@ def load_known():
         return json.load(fh).get("findings", [])
 
 
+def _novel_functions(ctx):
+    """[(rel, first line, last line, function name, what)] for functions whose vocabulary is outside the tables'"""
+    import ast as _ast
+    from .known_funcs import KNOWN_EXT
+    key = "novel-functions"
+    if key in ctx.cache:
+        return ctx.cache[key]
+    out_ = []
+    for f in ctx.P.funcs.values():
+        if f.module.is_tools or f.parent is not None:
+            continue
+        what = None
+        marks = set()
+        for n in _ast.walk(f.node):
+            if isinstance(n, _ast.Call):
+                try:
+                    tgs = ctx.R.resolve_call(n, f, count=False)
+                except Exception:
+                    tgs = []
+                for tg in tgs:
+                    if tg.kind == "ext" and tg.name not in KNOWN_EXT:
+                        what = what or "`%s`" % tg.name
+                        marks.add(tg.name.split(".")[-1] + "(")
+                        marks.add(tg.name)
+                    elif tg.kind == "cmeth" and "m:" + tg.meth not in KNOWN_EXT:
+                        what = what or "the method `.%s()`" % tg.meth
+                        marks.add(tg.meth + "(")
+            elif isinstance(n, (_ast.Tuple, _ast.List)) and isinstance(n.ctx, _ast.Store) and any(isinstance(x, _ast.Starred) for x in n.elts[:-1]):
+                what = what or "star-unpacking in the middle of a target"  # (a trailing *rest is read as the tail slice)
+                marks.add("?star")
+            elif isinstance(n, _ast.Slice) and n.step is not None and not (n.lower is None and n.upper is None and isinstance(n.step, _ast.UnaryOp)):
+                what = what or "a stepped slice"
+                marks.add("?step-slice")
+        if what:
+            src = getattr(f, "node_orig", None) or f.node
+            out_.append((f.module.rel, getattr(src, "lineno", 0), getattr(src, "end_lineno", 0) or 0, f.qual.split(":")[1], what, tuple(sorted(marks))))
+    ctx.cache[key] = out_
+    return out_
+
+
+def _novel_at(nov, loc):
+    parts = loc.split(":")
+    if len(parts) < 2 or not parts[1].isdigit():
+        return None
+    rel, line = parts[0], int(parts[1])
+    for r, a, b, name, what, marks in nov:
+        if r == rel and a <= line <= b:
+            return name, what, marks
+    return None
+
+
 def run_property(pid, tier="quick", sources=None, rules_only=None, write=True, quiet=False):
     """Run every rule of a property.  -> (exit code, ctx)"""
     from . import rules  # noqa: F401  (registers)
@@ -244,6 +297,31 @@ def run_property(pid, tier="quick", sources=None, rules_only=None, write=True, q
         new_viol = [o for o in new_viol if o not in demoted]
         if demoted and not new_viol:
             code = 2
+    if new_viol:
+        # vocabulary: a report located in a function that uses constructs the tables were never confirmed against
+        # (an external callee / container method outside known_funcs.KNOWN_EXT, star-unpacking, stepped slices,
+        # loop-else) is a suspicion, not a verdict
+        nov = _novel_functions(ctx)
+        demoted2 = []
+        for o in new_viol:
+            hit = _novel_at(nov, str(o.loc))
+            # ... and only when the report itself is about such a construct: its text shows the uninterpreted callee
+            # (`islice(..)`, `deque(..)`) or the marker of an uninterpreted value (`?star`, `?step-slice`)
+            if hit is not None and isinstance(o.witness, dict) and o.witness.get("firm"):
+                hit = None  # the rule objects to the construct itself (post-processing of the serialized bytes)
+            if hit is not None and o.rule.rstrip("0123456789ab") in ("ORD", "EFF", "AL", "EXC", "IDENT", "MUTDEF", "VALMSG", "EXCORIGIN", "ARGX", "FWD",
+                                                                     "DEFAULTS", "VAL", "EXCH", "EXCACC", "COPY", "RSRC", "LIVE") and o.rule != "EFF5":
+                # rules on effects, ordering, exception outcomes, validation dominance and aliasing read events, not
+                # the shape of values: their verdicts stand whatever the vocabulary (EFF5 compares index terms)
+                hit = None
+            if hit is not None:
+                demoted2.append(o)
+                out("ANALYSIS-INCONCLUSIVE property=%s rule=%s %s at %s: suspected, but %s uses %s, which the rule tables were not written for: %s"
+                    % (pid, o.rule, o.construct, o.loc, hit[0], hit[1], o.reason))
+        if demoted2:
+            new_viol = [o for o in new_viol if o not in demoted2]
+            if not new_viol:
+                code = 2
     if new_viol:
         code = 1
         rdir = os.path.join(VERIF, "evidence", "replay", pid)
